@@ -45,13 +45,17 @@ AMOUNTS = ["const", "negconst", "isub", "reg", "expr", "fixedconst",
            "zero_then_const", "mm_same"]
 FIXED_ONLY = ("fixedconst", "isubfixedconst", "var_x", "isubvar_x",
               "isubxexpr")
-KINDS = ["array", "dict", "local", "percpu"]
+# ptrN: the cell of an array map addressed through a pointer the program
+# keeps in the callee-saved register rN (e.mI[e.r9 + off] += ...)
+# (r8 carries the amounts, r7 is the library's map pointer)
+KINDS = ["array", "dict", "local", "percpu", "ptr6", "ptr9"]
 
 
 def plan(tier, seed):
     combos = [(f, k, a) for f in FMTS for k in KINDS for a in AMOUNTS
               if not (a in FIXED_ONLY and f != "x")
-              and not (a == "mm_same" and f == "x")]
+              and not (a == "mm_same" and f == "x")
+              and not (k.startswith("ptr") and a == "mm_same")]
     n = 16
     shards = [dict(seed=seed, shard=i, combos=combos[i::n], tier=tier)
               for i in range(n)]
@@ -81,7 +85,7 @@ def build(fmt, kind, amount, amount_value):
         ns["lamt"] = LocalVar("i")
     ns["out"] = m.globalVar("Q")
     ns["cellinit"] = m.globalVar("Q")
-    if kind == "array":
+    if kind == "array" or kind.startswith("ptr"):
         ns["cell"] = m.globalVar(fmt)
     elif kind == "percpu":
         ns["pm"] = PerCPUArrayMap()
@@ -178,6 +182,21 @@ def build(fmt, kind, amount, amount_value):
             setattr(obj, name, cur)
         if kind == "dict":
             do(value, "c")
+        elif kind.startswith("ptr"):
+            no = int(kind[3:])
+            e.r[no] = e.r7
+            mm_ = {"I": e.mI, "i": e.mi, "Q": e.mQ, "q": e.mq,
+                   "x": e.mx}[fmt]
+            off = e.__dict__["cell"]
+
+            class Through:
+                def __getattr__(self, name):
+                    return mm_[e.r[no] + off]
+
+                def __setattr__(self, name, v):
+                    mm_[e.r[no] + off] = v
+            rng["start"] = len(e.opcodes)
+            do(Through(), "c")
         else:
             do(e, "cell")
         rng["stop"] = len(e.opcodes)
@@ -316,7 +335,8 @@ def explore(fmt, kind, amount, res, rng, tier, amount_value=None):
             # a per-CPU variable is shared by the instances that run on one
             # CPU (a program preempted by another instance of itself); the
             # reference machine's per-CPU map is one CPU's copy
-            shared = kind in ("array", "dict", "percpu")
+            shared = kind in ("array", "dict", "percpu") or \
+                kind.startswith("ptr")
             ninst_list = [1] if not shared else [2, 3]
             inits = [0, 1, mask, mask >> 1, rng.getrandbits(8 * size)]
             if tier == "quick":
@@ -457,7 +477,7 @@ def schedules(ks, rng, cap):
 
 
 def locate_cell(e, kind, mem, size, sess, init):
-    if kind == "array":
+    if kind == "array" or kind.startswith("ptr"):
         fd = [fd for fd, mm in sess.maps.items()
               if mm["type"].name == "ARRAY"][0]
         return Cell(mem.maps[fd].region, e.__dict__["cell"], size)
